@@ -27,11 +27,22 @@ func init() {
 	log.Patch(log.SetWriter(io.Discard), log.SetLevel(log.Critical))
 }
 
-// three arrival instants only, so that arrival ties are the norm
+// three arrival instants only, so that arrival ties are the norm; the first two
+// differ by one nanosecond (a comparison at second granularity would tie them)
 var arrivalSet = []time.Time{
 	time.Unix(1_700_000_000, 0),
+	time.Unix(1_700_000_000, 1),
 	time.Unix(1_700_000_001, 0),
-	time.Unix(1_700_000_002, 0),
+}
+
+// arrivalOf returns the arrival instant number arr; blocks with odd labels get
+// it in another time zone: the same instant with a different representation
+// (instants must be compared, not time.Time structs).
+func arrivalOf(arr, id int) time.Time {
+	if id%2 == 1 {
+		return arrivalSet[arr].In(time.FixedZone("verif", 3600))
+	}
+	return arrivalSet[arr].UTC()
 }
 
 const (
@@ -290,7 +301,7 @@ func (e *env) doAdd(o op) {
 	}
 	hd := mkHeader(p.hash, p.number+1, o.ID, o.Mark)
 	b := &mBlock{id: o.ID, hash: hd.Hash(), parent: p, number: p.number + 1, primary: o.Mark == markPrimary,
-		arrival: arrivalSet[o.Arr], seq: e.step}
+		arrival: arrivalOf(o.Arr, o.ID), seq: e.step}
 	if old := e.byID[o.ID]; old != nil {
 		panic(fmt.Sprintf("generator error: label %d reused", o.ID))
 	}
@@ -308,7 +319,7 @@ func (e *env) doAdd(o op) {
 // adjacentPrunedSiblings counts parents that have two consecutive (in insertion
 // order) children both outside the finalised chain/subtree: the exact shape in
 // which removing a child while iterating the sibling list goes wrong.
-func (e *env) adjacentPrunedSiblings(f *mBlock, pruned []*mBlock) (adjacent, afterPruned int) {
+func (e *env) adjacentPrunedSiblings(f *mBlock, pruned []*mBlock) (adjacent, afterPruned, maxFan int) {
 	isPruned := map[*mBlock]bool{}
 	for _, b := range pruned {
 		isPruned[b] = true
@@ -321,6 +332,11 @@ func (e *env) adjacentPrunedSiblings(f *mBlock, pruned []*mBlock) (adjacent, aft
 	}
 	for _, ks := range kids {
 		sort.Slice(ks, func(i, j int) bool { return ks[i].seq < ks[j].seq })
+		for _, k := range ks {
+			if isPruned[k] && len(ks) > maxFan {
+				maxFan = len(ks)
+			}
+		}
 		for i := 1; i < len(ks); i++ {
 			if isPruned[ks[i-1]] && isPruned[ks[i]] {
 				adjacent++
@@ -330,7 +346,7 @@ func (e *env) adjacentPrunedSiblings(f *mBlock, pruned []*mBlock) (adjacent, aft
 			}
 		}
 	}
-	return adjacent, afterPruned
+	return adjacent, afterPruned, maxFan
 }
 
 func (e *env) doPrune(o op) {
@@ -350,9 +366,15 @@ func (e *env) doPrune(o op) {
 				pr = append(pr, x)
 			}
 		}
-		adj, after := e.adjacentPrunedSiblings(f, pr)
+		adj, after, fan := e.adjacentPrunedSiblings(f, pr)
 		e.c.Count("prune_adjacent_pruned_siblings", adj)
 		e.c.Count("prune_kept_child_after_pruned_sibling", after)
+		if fan >= 8 {
+			e.c.Count("prunes_in_sibling_fan_of_8_or_more", 1)
+		}
+		if d := len(tmp.chain(f)) - 1; d >= 4 {
+			e.c.Count("prunes_of_block_4_or_more_below_root", 1)
+		}
 		want = e.m.finalise(f)
 	}
 	got := e.bt.Prune(f.hash)
@@ -457,7 +479,7 @@ func (e *env) checkBest() {
 		if b == nil {
 			return "not-in-tree"
 		}
-		return fmt.Sprintf("#%d(primaries=%d height=%d arrival=%d)", b.id, e.m.primaryCount(b), b.number, b.arrival.Unix()-arrivalSet[0].Unix())
+		return fmt.Sprintf("#%d(primaries=%d height=%d arrival=+%dns)", b.id, e.m.primaryCount(b), b.number, b.arrival.Sub(arrivalSet[0]).Nanoseconds())
 	}
 	isLeaf := false
 	for _, l := range e.m.leaves() {
